@@ -242,7 +242,8 @@ func TestSim(t *testing.T) {
 
 	stop := false
 	// fault enumeration part (thorough tier, properties that define a sweep)
-	if prop.Sweep != nil {
+	if prop.Sweep != nil && maxRuns == 1<<30 {
+		// (a bounded batch, as used by the determinism self-test, has no time-bounded part)
 		sweepBudget := budget / 2
 		if tier == "quick" {
 			sweepBudget = budget / 3
